@@ -693,6 +693,16 @@ macro_rules! define_frost_core { () => {
                 return false;
             }
 
+            // The commitment list must be ordered with no duplicate (same
+            // rule as in sign()); otherwise the share cannot be valid.
+            for i in 1..commitment_list.len() {
+                if scalar_cmp_vartime(commitment_list[i - 1].ident,
+                    commitment_list[i].ident) != Ordering::Less
+                {
+                    return false;
+                }
+            }
+
             // Find our commitment in the list.
             let mut comm = Commitment::INVALID;
             for c in commitment_list.iter() {
